@@ -771,15 +771,15 @@ Section Recover.
     rinv c ->
     let c' := rrun_config c sched in
     exists tm ta, rc_threads c' = [tm; ta] /\
-      (* the monitor has finished its poll -> the request is not waiting any more *)
-      (rfinished tm = true -> waiting_unnotified ta = false) /\
+      (* the monitor has finished its poll -> the flag is up and the request is not waiting any more *)
+      (rfinished tm = true -> rc_flag c' = true /\ waiting_unnotified ta = false) /\
       (* the request has returned -> state and answer are those of the run in which the node had answered at once *)
       (forall r, rresult ta = Some r -> rc_tower c' = T /\ r = R).
   Proof.
     intros Hi c'. assert (H : rinv c') by (apply rrun_inv; [intros; eapply rinv_step; eauto|exact Hi]).
     destruct H as [Ho Ht Hp Hf Eth|Ho Ht Eth|Ho Ht Eth|Ho Ht Hfl Eth|Ho Ht Hfl Eth|ta Ho Hfl Ha Eth];
       eexists; eexists; (split; [exact Eth|]); (split; [cbn; try discriminate|]); try (intros r Hr; cbn in Hr; discriminate).
-    - intros _. unfold a_ok in Ha. unfold waiting_unnotified. destruct (rt_st ta) as [p|[|] p|r]; auto. destruct Ha.
+    - intros _. split; [exact Hfl|]. unfold a_ok in Ha. unfold waiting_unnotified. destruct (rt_st ta) as [p|[|] p|r]; auto. destruct Ha.
     - intros r Hr. unfold a_ok in Ha. unfold rresult in Hr. destruct (rt_st ta) as [p|[|] p|r']; try discriminate.
       + destruct p; try discriminate. inversion Hr; subst r. cbn in Ha. destruct Ha as [_ Ha]. inversion Ha. auto.
       + inversion Hr; subst r'. exact Ha.
